@@ -22,7 +22,8 @@ Cell-level run-time model: the literal reading of `src/runtime_scope.rs` over th
   templated cell", "expected a function") are `CRes.stuck`.
 
 Fuel is spent as in `Core.lean` wherever the two evaluators do the same thing (one unit per evaluator function
-entered), so that on programs without user functions both run out of fuel at the same moment.
+entered; creating an activation and binding its parameters costs nothing, as `bindParams` in `Core.tramp`), so that
+on programs whose functions are declared at top level both run out of fuel at the same moment.
 -/
 import XrayModel.Scope
 import XrayModel.Core
@@ -222,6 +223,32 @@ def readValue : Nat → RFrame → RFrame → ECell → CRes
 abbrev Cfg := Core.Cfg
 abbrev St := Core.St
 
+/-- the head of `from_template` (:186-223): scope-parent search by id from the stack parent, the initial cells,
+the height, the depth check -/
+def initFrame (cfg : Cfg) (t : Tmpl) (stackParent : Option RFrame) : Except CRes RFrame :=
+  let scopeParent := match t.parentId with
+    | none => none
+    | some pid => findScopeParent ((match stackParent with | some p => p.height | none => 0) + 2) stackParent pid
+  let height := match stackParent with | some p => p.height + 1 | none => 0
+  if (match cfg.depthLimit with | some l => decide (height ≥ l) | none => false) then .error (.viol .depth)
+  else .ok (.mk (initCells t.cells 0) height scopeParent t)
+
+/-- the leading `Declaration::Parameter`s (:229-238) — `add_parameter` puts them in front of everything else;
+they evaluate nothing: the argument, or the default value at `argument_idx - default_offset`.  Returns the
+activation and the remaining declarations. -/
+def runParams (fr : RFrame) (ds : List CDecl) (args : List CVal) : Except CRes (RFrame × List CDecl) :=
+  match ds with
+  | .param cell argIdx :: rest =>
+    let v : Option CVal := match args[argIdx]? with
+      | some a => some a
+      | none => fr.tmpl.defaults[argIdx - (fr.tmpl.paramCount - fr.tmpl.defaults.length)]?
+    (match v with
+     | none => .error (.stuck "arity")
+     | some v => match fr.put cell v with
+       | none => .error (.stuck "attempted to write to templated cell")
+       | some fr' => runParams fr' rest args)
+  | ds => .ok (fr, ds)
+
 mutual
   /-- `RuntimeScope::eval` -/
   def eval (fuel : Nat) (cfg : Cfg) (fr : RFrame) (e : XE) (tail : Bool) (st : St) : CRes × St :=
@@ -360,7 +387,11 @@ mutual
     match fuel with
     | 0 => (.oof, st)
     | fuel + 1 =>
-      match fromTemplate fuel cfg t (some caller) args st with
+      match (match initFrame cfg t (some caller) with
+             | .error r => (Except.error r, st)
+             | .ok fr0 => match runParams fr0 t.decls args with
+               | .error r => (Except.error r, st)
+               | .ok (fr1, rest) => runDecls fuel cfg fr1 rest args st) with
       | (.error r, st') => (r, st')
       | (.ok fr, st') =>
         match t.out with
@@ -373,20 +404,7 @@ mutual
               else tramp fuel cfg caller t newArgs rec' st''
           | r => r
 
-  /-- `from_template` (:180-263) -/
-  def fromTemplate (fuel : Nat) (cfg : Cfg) (t : Tmpl) (stackParent : Option RFrame) (args : List CVal) (st : St) :
-      Except CRes RFrame × St :=
-    match fuel with
-    | 0 => (.error .oof, st)
-    | fuel + 1 =>
-      let scopeParent := match t.parentId with
-        | none => none
-        | some pid => findScopeParent ((match stackParent with | some p => p.height | none => 0) + 2) stackParent pid
-      let height := match stackParent with | some p => p.height + 1 | none => 0
-      if (match cfg.depthLimit with | some l => decide (height ≥ l) | none => false) then (.error (.viol .depth), st)
-      else runDecls fuel cfg (.mk (initCells t.cells 0) height scopeParent t) t.decls args st
-
-  /-- the declarations of an activation, in order (:227-260) -/
+  /-- the declarations of an activation after the parameters, in order (:227-260) -/
   def runDecls (fuel : Nat) (cfg : Cfg) (fr : RFrame) (ds : List CDecl) (args : List CVal) (st : St) :
       Except CRes RFrame × St :=
     match fuel with
@@ -468,12 +486,22 @@ mutual
           else (.stuck ("unknown function " ++ f), st)
 end
 
+/-- `from_template` (:180-263): the new activation, its parameters, then its declarations (the loop of `tramp`
+does exactly this) -/
+def fromTemplate (fuel : Nat) (cfg : Cfg) (t : Tmpl) (stackParent : Option RFrame) (args : List CVal) (st : St) :
+    Except CRes RFrame × St :=
+  match initFrame cfg t stackParent with
+  | .error r => (.error r, st)
+  | .ok fr0 => match runParams fr0 t.decls args with
+    | .error r => (.error r, st)
+    | .ok (fr1, rest) => runDecls fuel cfg fr1 rest args st
+
 /-- the root template (`RootEvaluationScope::from_compilation_scope`, `root_runtime_scope.rs` :36-66) and its
 activation (`fuel` is what the declarations get, as in `Core.runProgram`) -/
 def runRoot (fuel : Nat) (cfg : Cfg) (root : Scope) : Except CRes RFrame × St :=
   match fromSpecs root.cells none with
   | .error w => (.error (.stuck w), {})
-  | .ok cells => fromTemplate (fuel + 1) cfg (.mk [] none cells root.decls 0 [] none) none [] {}
+  | .ok cells => fromTemplate fuel cfg (.mk [] none cells root.decls 0 [] none) none [] {}
 
 /-- compile a program with the scope model and run it on the cell machine -/
 def compileAndRun (cfuel fuel : Nat) (cfg : Cfg) (ds : List SDecl) : Except Err (Scope × (Except CRes RFrame × St)) :=
